@@ -440,15 +440,26 @@ class ContentOracle(Oracle):
             n = int(t[3]) if name != "fromiter" else int(t[5])
             base = 4 if name != "fromiter" else 6
             l = [(int(t[base + 3 * i]), int(t[base + 3 * i + 1]), pv(t[base + 3 * i + 2])) for i in range(n)]
-            exp = {}
+            # what the properties fix: From<Vec> keeps the FIRST priority given for an item,
+            # FromIterator the LAST (C07); a deserialized sequence keeps ONE of the priorities
+            # given (C15).  Which of several Eq-equal item values is stored is not specified.
+            given = {}
             for k, pl, p in l:
-                if name == "fromvec":
-                    exp.setdefault(k, (pl, p))
-                elif name == "fromiter":
-                    exp[k] = (pl, p)
-                else:  # deser: first item, last priority
-                    exp[k] = (exp[k][0] if k in exp else pl, p)
-            return self.same(got, exp, "%s" % name)
+                given.setdefault(k, []).append((pl, p))
+            gm = {k: (pl, p) for k, pl, p in got}
+            if len(gm) != len(got):
+                return "after %s an item is stored twice" % name
+            if set(gm) != set(given):
+                return "after %s the stored items are %s, the input names %s" % (name, sorted(gm)[:6], sorted(given)[:6])
+            for k, (pl, p) in gm.items():
+                pls = [x[0] for x in given[k]]
+                ps = [x[1] for x in given[k]]
+                if pl not in pls:
+                    return "after %s item %d carries a payload the input never gave it" % (name, k)
+                want = [ps[0]] if name == "fromvec" else [ps[-1]] if name == "fromiter" else ps
+                if not any(p == w for w in want):
+                    return "after %s item %d has priority %s; the input allows %s" % (name, k, p, [str(w) for w in want])
+            return None
         r = int(t[1])
         b = self.ents(before, r)
         a = self.ents(after, r)
@@ -587,12 +598,18 @@ class ContentOracle(Oracle):
             if o is None or before[r][0] != before.get(s2, (None,))[0]:
                 return None
             om = {k: (pl, p) for k, pl, p in o}
-            first, second = (om, bm) if len(om) > len(bm) else (bm, om)
-            exp = dict(second)
-            exp.update(first)
-            w = self.same(a, exp, name)
-            if w:
-                return w
+            # on a clash the receiver's entry stays unless the other queue was longer, when either may stay (C07)
+            gm = {k: (pl, p) for k, pl, p in a}
+            if len(gm) != len(a):
+                return "after append an item is stored twice"
+            if set(gm) != set(bm) | set(om):
+                return "after append the stored items are not the union of the two queues"
+            for k, e in gm.items():
+                allowed = [bm[k]] if k in bm else []
+                if k in om and (k not in bm or len(om) > len(bm)):
+                    allowed.append(om[k])
+                if e not in allowed:
+                    return "after append item %d is stored as %s; allowed: %s" % (k, e, allowed)
             return None if self.ents(after, s2) == [] else "append left the other queue non-empty"
         if name in ("clear", "drain"):
             return None if a == [] else "%s left %d elements" % (name, len(a))
